@@ -6,7 +6,9 @@ from session import Session, ServerDied
 LEVEL = 'model_checking'
 RULE = ('TLC checks NeverEarlyNorSpurious / NeverObservableLate / NoSpuriousDelete on the implementation-shaped model of the '
         'expiry mechanism (spec/impl/ImplSweeper.tla: stored deadline + index hint + two-phase sweeper interleaved with '
-        'SET/EXPIRE/PERSIST/RENAME/empty-and-recreate/observe) in its repaired form; the reference semantics (deadline '
+        'SET/EXPIRE/PERSIST/RENAME/empty-and-recreate/observe) in its repaired form up to MaxTime 4, and Apalache discharges an inductive invariant of that model '
+        '(spec/impl/ImplSweeperInd.tla: what is stored and not past its own deadline is exactly what the reference holds live, with equal value and deadline) for '
+        'unbounded time and arbitrary deadlines, with the pinned design as a control that must fail; the reference semantics (deadline '
         'intervals on the observer clock, spec/KS.tla PurgeChoices) are then checked against the REAL server: seeded random '
         'histories with 30-400 ms TTLs on all value types read through every command family before/around/after the '
         'deadlines, directed stale-index scenarios that wait for two completed sweeper passes (hook counter), and the '
@@ -119,6 +121,13 @@ def run_race(ctx, srv, rounds):
 
 
 def run(ctx):
+    # an inductive invariant of the repaired mechanism, discharged by Apalache for unbounded time (runs in the background)
+    common = ['--cinit=CInit']
+    apa = ctx.apalache_start('ImplSweeperInd', [
+        ('init-implies-inv', common + ['--init=Init', '--inv=IndInv', '--length=0'], 'ok'),
+        ('inv-is-inductive', common + ['--init=IndInit', '--inv=IndInv', '--length=1'], 'ok'),
+        ('inv-implies-safety', common + ['--init=IndInit', '--inv=Safety', '--length=0'], 'ok'),
+        ('control-pinned-design-is-not-inductive', ['--cinit=CInitPinned', '--init=IndInit', '--inv=IndInv', '--length=1'], 'violated')])
     ctx.model_check('ImplSweeper', 'MC_Sweeper_fixed', workers=12, timeout=1500, subdir='impl')
     srv = ctx.new_server()
     n_hist = 5 if ctx.quick else 40
@@ -155,6 +164,7 @@ def run(ctx):
         tr.emit({'k': 'crash', 'status': srv.exit_status()})
     s.close_all()
     ctx.validate_segments(tr, 'forms')
+    ctx.apalache_wait(apa)
     ctx.extra_cov['form_segments'] = n3
     ctx.extra_cov['distinct_cases'] = n_hist + n1 + n2 + n3
 
